@@ -19,6 +19,9 @@ func Now() time.Time {
 	return epoch.Add(s.Now())
 }
 
+// SimOffset converts a time.Time obtained from Now (plus arithmetic) back into simulated time.
+func SimOffset(t time.Time) time.Duration { return t.Sub(epoch) }
+
 // Since replaces time.Since.
 func Since(t time.Time) time.Duration { return Now().Sub(t) }
 
